@@ -36,7 +36,7 @@ Section Top.
   Qed.
 
   Lemma Sim_init r :
-    Sim c (pushV (set_rstack [r] (read c (init_state c)))) [] (mkSig 0 []) (land c None 0 (mu0)) [] (Some r) false.
+    Sim c (pushV (set_rstack [r] (read c (init_state c)))) [] (mkSig 0 (o_initstate (cO c))) (land c None 0 (mu0)) [] (Some r) false.
   Proof.
     assert (Hadv : pt (read c (init_state c)) = adv (save0 d)) by (rewrite read_pt_adv; reflexivity).
     pose proof (reach_init d) as Hr. pose proof (reach_ok _ _ Hr) as [A B].
@@ -76,12 +76,12 @@ Section Top.
     set (s1 := set_rstack [r] (read c (init_state c))).
     assert (HI1 : I c s1) by (pose proof I_init as [A B C0]; constructor; auto).
     change (pushV (set_rstack [r] (read c (init_state c)))) with (pushV s1).
-    pose proof (impl_refines_ref c Hst Hmemo HG Hstale Hnolr fuel (r_expr r) (pushV s1) [] (mkSig 0 [])
+    pose proof (impl_refines_ref c Hst Hmemo HG Hstale Hnolr fuel (r_expr r) (pushV s1) [] (mkSig 0 (o_initstate (cO c)))
                   (land c None 0 mu0) [] (Some r) false Hwf (Forall_nil _) (I_pushV c _ HI1) (Sim_init r)) as Hs.
     pose proof (parseExprWrap_inv c fuel (r_expr r) (pushV s1) (I_pushV c _ HI1)) as Hw.
     unfold sim_res in Hs.
     destruct (parseExprWrap c fuel (r_expr r) (pushV s1)) as [[v [|]] s2|pv s2|];
-      destruct (reval c fuel [] (Some r) false (r_expr r) [] (mkSig 0 []) (land c None 0 mu0)) as [m'|v' g' sc' m'|pv' m' pos R'|];
+      destruct (reval c fuel [] (Some r) false (r_expr r) [] (mkSig 0 (o_initstate (cO c))) (land c None 0 mu0)) as [m'|v' g' sc' m'|pv' m' pos R'|];
       cbn in Hs; try contradiction; try exact Logic.I.
     - (* success *)
       destruct Hs as [E [S1 S2 S3 S4 S5 S6 S7 S8 S9 S10 S11 S12]]. cbn. repeat split; auto. rewrite S5. reflexivity.
